@@ -39,3 +39,12 @@ let () =
       else if res = "panic" then Viol "control handler panicked on a cut payload"
       else Pass true
     | _ -> Diff "malformed line")
+
+let () =
+  (* RDE: a reader that goes on after an invalid text message (Discard) judges every later message as a new reader would *)
+  register "RDE" (fun i o -> match o with
+    | [got; want; final] ->
+      if got <> want then Viol "a reader that went on after an invalid text message (Discard) did not judge the messages as a new reader would (verdict per message differs from the definition of UTF-8)"
+      else if final <> "eof" then Viol ("the stream of RDE did not end cleanly: " ^ final)
+      else Pass true
+    | _ -> Diff "malformed line")
